@@ -36,7 +36,7 @@ inductive Obj where
 abbrev Heap := List Obj
 
 inductive Err where
-  | index | type | unhashable | args | fuel | cycle
+  | index | type | unhashable | args | fuel | cycle | depth
   deriving Repr, DecidableEq, Inhabited
 
 inductive Res where
@@ -351,7 +351,9 @@ def copyVal (heap : Heap) : HVal → Heap × HVal
   | v => (heap, v)
 
 /-- `KValue::deep_copy`: lists, maps and tuples are rebuilt recursively; shared sub-objects are
-duplicated (a DAG becomes a tree). `none`: out of fuel (cyclic data overflow the stack in koto). -/
+duplicated (a DAG becomes a tree). The fuel drops by one per nesting level (not per element), so it
+is the nesting limit of `deep_copy_with_nesting_limit`; `none`: more levels than fuel (always so for
+cyclic data) — koto raises "too many nested containers while making a deep copy". -/
 def deepCopy : Nat → Heap → HVal → Option (Heap × HVal)
   | 0, _, _ => none
   | f + 1, heap, v =>
